@@ -177,7 +177,7 @@ pub fn c10() -> Outcome {
     let mut n = 0; let mut d = BTreeSet::new();
     let fs = plain_functions();
     // variables 1,2 are decision variables; ids 3 (and 4,5 via replacement functions) are parameters
-    for k in 0..fs.len() { for mode in 0..3 {
+    for k in 0..fs.len() { for mode in 0..4 {
         n += 1; d.insert((k, mode));
         let mut p = v1::ParametricInstance::default();
         p.decision_variables = vec![dv(1, Kind::Continuous, None), dv(2, Kind::Integer, Some((-3.0, 3.0)))];
@@ -190,12 +190,12 @@ pub fn c10() -> Outcome {
         let mut h = v1::ConstraintHints::default(); let mut oh = v1::OneHot::default(); oh.constraint_id = 5; oh.decision_variables = vec![1, 2]; h.one_hot_constraints = vec![oh];
         p.constraint_hints = Some(h);
         let mut params = v1::Parameters::default();
-        params.entries = match mode { 0 => [(3u64, 0.5), (4, -2.0)].into_iter().collect(), 1 => [(3u64, 0.5), (4, -2.0), (77, 9.0)].into_iter().collect(), _ => [(3u64, 0.5)].into_iter().collect() };
+        params.entries = match mode { 0 => [(3u64, 0.5), (4, -2.0)].into_iter().collect(), 1 => [(3u64, 0.5), (4, -2.0), (77, 9.0)].into_iter().collect(), 2 => [(3u64, 0.5)].into_iter().collect(), _ => HashMap::new() /* every declared parameter omitted */ };
         if k == 3 { note(|| format!("with_parameters {:?} on objective {:?}", params.entries, fs[k])); }
         match p.clone().with_parameters(params.clone()) {
-            Err(e) => { if mode != 2 { fail!(n, d, "with_parameters failed although all parameters were given: {e}"); } }
+            Err(e) => { if mode < 2 { fail!(n, d, "with_parameters failed although all parameters were given: {e}"); } }
             Ok(i) => {
-                if mode == 2 { fail!(n, d, "with_parameters succeeded although parameter 4 was omitted"); }
+                if mode >= 2 { fail!(n, d, "with_parameters succeeded although a declared parameter was omitted (given: {:?})", params.entries); }
                 if i.decision_variables != p.decision_variables || i.sense != p.sense || i.removed_constraints != p.removed_constraints || i.constraint_hints != p.constraint_hints { fail!(n, d, "with_parameters changed variables, sense, removed constraints or hints"); }
                 if i.parameters.as_ref().map(|q| &q.entries) != Some(&params.entries) { fail!(n, d, "supplied parameter values are not recorded on the result"); }
                 if i.constraints.iter().map(|c| (c.id, c.equality)).collect::<Vec<_>>() != p.constraints.iter().map(|c| (c.id, c.equality)).collect::<Vec<_>>() { fail!(n, d, "constraint ids/equalities changed"); }
@@ -292,7 +292,8 @@ pub fn c13() -> Outcome {
         f_of(F::Linear(lin(&[(1, 1.5), (2, -0.5)], -2.5))),
     ];
     let mk = |f: &Function| {
-        let mut i = inst(vec![dv(1, Kind::Integer, Some((0.0, 3.0))), dv(2, Kind::Binary, None), dv(3, Kind::Integer, Some((-2.0, 2.0))), dv(7, Kind::Continuous, Some((0.0, 1.0)))], Function::default(),
+        // variables listed in an order that is not ascending (the largest id is not last)
+        let mut i = inst(vec![dv(3, Kind::Integer, Some((-2.0, 2.0))), dv(7, Kind::Continuous, Some((0.0, 1.0))), dv(1, Kind::Integer, Some((0.0, 3.0))), dv(2, Kind::Binary, None)], Function::default(),
             vec![con(4, Equality::LessThanOrEqualToZero, f.clone()), con(5, Equality::EqualToZero, f_of(F::Linear(lin(&[(1, 1.0)], 0.0)))), con(6, Equality::LessThanOrEqualToZero, f_of(F::Linear(lin(&[(7, 1.0), (1, 1.0)], -1.0))))]);
         i.objective = Some(f_of(F::Constant(0.0))); i
     };
